@@ -7,7 +7,7 @@ rows=[]
 for d in sorted(os.listdir('/verif/seeded')):
     p='/verif/seeded/%s/meta.json'%d
     if not os.path.exists(p): continue
-    if not re.search(r'-(2|3|4)[abc]$',d): continue
+    if not re.search(sys.argv[2] if len(sys.argv)>2 else r'-(2|3|4)[abc]$',d): continue
     m=json.load(open(p))
     s=re.sub(r'\s+',' ',m.get('summary','')).strip()
     s=s[:230]+('…' if len(s)>230 else '')
